@@ -144,11 +144,15 @@ def build(work, tier):
     c = prof.literal_ids.table() + '#define C20_BOUNDED 1\n' + b.subst(rd('model.h')) + typedefs + context + '\n' + '\n'.join(recs[:2]) + '\n' + b.subst(rd('bounded.h')) + u_lt + '\n' + u_vs + '\n' + rd('bounded_harness.h')
     f = b.write('bounded_permutation.c', c)
     alltext += c
-    p = Proof('bounded.order_and_duplicate_blindness', f, 'h_perm', kind='bounded', loop_contracts=False, unwind=7, include_dirs=[QT], timeout=1500,
-              bound_text='identity, feature, field lists of length <= 4, at most 3 values per field; concrete insertion sort calling the lowered identityLessThan; one concrete total order on strings',
-              note='the lowered real verificationString runs on two info sets that differ only by order / repetition; not counted as proved')
-    p.expect_post = 1
-    if tier == 'thorough' or os.environ.get('C20_BOUNDED', '1') == '1':
+    modes = ((0, 'identities_exchanged'), (1, 'features_exchanged'), (2, 'feature_repeated'), (3, 'form_fields_exchanged'), (4, 'field_values_exchanged'))
+    for m, what in modes:
+        p = Proof('bounded.hash_blind_to.' + what, f, 'h_perm', kind='bounded', loop_contracts=False, unwind=6, include_dirs=[QT], timeout=1500,
+                  defines=['BOUNDED_MODE=%d' % m], no_std_checks=True, flags=['--no-standard-checks'],
+                  bound_text='lists of length <= 4 (identities, features, form fields, values of a field), strings drawn from 8 values, one concrete total order on them; '
+                             'concrete insertion sort calling the lowered identityLessThan; the two info sets differ by one exchange of neighbours / one repeated feature; '
+                             'the unchanged parts of the info set hold at most one element',
+                  note='the lowered real verificationString runs on two info sets that differ by one elementary reordering / repetition; not counted as proved')
+        p.expect_post = 1
         proofs.append(p)
     return {
         'proofs': proofs, 'functions': b.functions, 'dropped': b.dropped, 'fired': b.fired, 'hooks': HOOKS,
